@@ -102,10 +102,13 @@ def option_sets(tier):
     return sets
 
 
+DEFAULT_DERIVE = "Serialize,Debug,Default"   # only where the operation's types can derive Default at all
+
+
 def opts_of(s):
     o = {"mode": "cli"}
     for (name, vals), idx in zip(DIMS, s):
-        v = vals[idx]
+        v = vals[idx] if idx >= 0 else DEFAULT_DERIVE
         if v is None:
             continue
         o[name] = v
@@ -133,6 +136,8 @@ def run(tier):
             ops.append(("single item %s %s" % (focus, labels[0]), doc))
     default_set = tuple(0 for _ in DIMS)
     narrow = [default_set] + [tuple(1 if j == i else 0 for j in range(len(DIMS))) for i in range(len(DIMS))]
+    # `Default` among the response derives (index -1 in the response_derives dimension): judged where it compiles
+    narrow.append(tuple(-1 if name == "response_derives" else 0 for name, _ in DIMS))
     for oi, (desc, doc) in enumerate(ops):
         for bi, base in enumerate(bases if oi < n_rich else bases[:1]):
             for s in (sets if oi < n_rich else narrow):
@@ -180,7 +185,8 @@ def run(tier):
         if not m["case"]:
             continue
         if not farm.cases[m["case"]].compiles:
-            rep.violation("does_not_compile", m["label"], [(e["code"], e["message"][:150]) for e in farm.cases[m["case"]].errors[:2]])
+            if -1 not in m["set"]:   # (types with enums / unions cannot derive Default: the user's choice, not a defect)
+                rep.violation("does_not_compile", m["label"], [(e["code"], e["message"][:150]) for e in farm.cases[m["case"]].errors[:2]])
             m["case"] = None
             continue
         by_op.setdefault(m["oi"], []).append(m)
